@@ -29,6 +29,7 @@ func runC04(c *an.Ctx) {
 	r04e(c)
 	r04g(c)
 	r04h(c)
+	r04i(c)
 }
 
 func r04a(c *an.Ctx) {
@@ -434,6 +435,18 @@ func r04e(c *an.Ctx) {
 				}
 			}
 		}
+		// the set that is checked is the one the other environments are later held against: the new environment's own
+		// GetActiveDetectors() (the same function Manager.GetActiveDetectors folds over the listed environments)
+		own := false
+		for _, l := range an.BackSlice(lookup.Index, an.SliceOpts{LeafCall: func(n string, cl *ssa.Call) bool {
+			return strings.HasSuffix(n, "core/environment.Environment).GetActiveDetectors")
+		}}) {
+			if l.Kind == "call" {
+				own = true
+			}
+		}
+		c.Ob(name+"|checked-set-is-the-environments-own", lookup.Pos(), own,
+			"the detectors looked up in the active set do not come from the new environment's GetActiveDetectors(): the check and the later accounting of this environment's detectors (Manager.GetActiveDetectors) can disagree, e.g. when the request sets the detectors variable itself")
 		c.Ob(name+"|check-then-register-atomic", store.Pos(), atomic,
 			"the active-detector snapshot is taken and the environment registered under different acquisitions of Manager.mu (check-then-act): two concurrent creations needing the same detector both pass the check")
 	}
@@ -513,5 +526,54 @@ func r04h(c *an.Ctx) {
 			}
 			c.Ob(key, st.Pos(), guarded, "%s is overwritten in %s with a value that is empty when the status message carries no such id: the task stops counting as owned (isLocked), gets killed by the next cleanup and can be claimed by another environment", fld.Name(), name)
 		})
+	}
+}
+
+// R04i: the active-detector set counts every listed environment whose workflow is loaded. An environment skipped for
+// any other reason (being torn down, say) frees its detectors for a concurrent creation while it still holds them.
+func r04i(c *an.Ctx) {
+	c.Rule("R04i", "Manager.GetActiveDetectors: an environment is left out only when its workflow is not loaded yet", 1)
+	fn := c.MustFn("core/environment", "Manager.GetActiveDetectors")
+	if fn == nil {
+		return
+	}
+	n := 0
+	an.Instrs(fn, func(in ssa.Instruction) {
+		call, ok := in.(*ssa.Call)
+		if !ok || !strings.HasSuffix(an.CalleeName(&call.Call), "core/environment.Environment).GetActiveDetectors") {
+			return
+		}
+		n++
+		c.Subject()
+		var extra []string
+		for _, g := range an.ControlConds(call.Block()) {
+			if g.LoopHeader || g.LoopExit {
+				continue
+			}
+			okCond := false
+			for _, a := range an.CondAtoms(g.V, g.Val) {
+				// env.workflow != nil  /  env != nil
+				for _, pair := range [][2]ssa.Value{{a.X, a.Y}, {a.Y, a.X}} {
+					if pair[1] == nil || !an.IsNilConst(pair[1]) || (a.Op != token.EQL && a.Op != token.NEQ) {
+						continue
+					}
+					if f := an.FieldOf(pair[0]); f != nil && f.Name() == "workflow" {
+						okCond = true
+					}
+					if strings.HasSuffix(pair[0].Type().String(), "core/environment.Environment") {
+						okCond = true
+					}
+				}
+			}
+			if !okCond {
+				extra = append(extra, c.PosStr(condPos(g.V)))
+			}
+		}
+		sort.Strings(extra)
+		c.Ob(fmt.Sprintf("(*core/environment.Manager).GetActiveDetectors|fold#%d|only-unloaded-skipped", n), call.Pos(), len(extra) == 0,
+			"whether a listed environment's detectors are counted depends on more than its workflow being loaded (conditions at %v): an environment left out keeps its detectors while a creation needing them passes the exclusion check", extra)
+	})
+	if n == 0 {
+		c.Lost("the fold over Environment.GetActiveDetectors in Manager.GetActiveDetectors")
 	}
 }
